@@ -119,11 +119,13 @@ Section Prune.
 
   (* ---------- LocalStore.Verify ---------- *)
   (* the walk only collects ids (it feeds them to the workers) *)
+  (* Only the store's own chunk files are looked at: a file whose path is not exactly nameFromID(id) for
+     the id parsed from its name (chunk name in a wrong directory, upper-case hex) is skipped. *)
   Definition verify_file (st : store) (pstr : bytes) (p : path) (x : node * list id)
     : (node * list id) * option walk_err :=
     match chunk_file_id (st_unc st) pstr (last p []) with
     | None => (x, None)
-    | Some i => ((fst x, snd x ++ [i]), None)
+    | Some i => if path_eqb p (snd (name_from_id st i)) then ((fst x, snd x ++ [i]), None) else (x, None)
     end.
 
   Definition verify_ids (fuel : nat) (st : store) (basestr : bytes) (s : node) : list id * option walk_err :=
@@ -169,7 +171,10 @@ Section Prune.
              (x : node * list verify_msg) : (node * list verify_msg) * option walk_err :=
     match chunk_file_id (st_unc st) pstr (last p []) with
     | None => (x, None)
-    | Some i => let (s', m) := verify_one st repair i (fst x) in ((s', snd x ++ m), None)
+    | Some i =>
+        if path_eqb p (snd (name_from_id st i)) then
+          let (s', m) := verify_one st repair i (fst x) in ((s', snd x ++ m), None)
+        else (x, None)
     end.
 
   Definition verify_eager_raw (fuel : nat) (st : store) (basestr : bytes) (repair : bool) (s : node)
